@@ -1190,6 +1190,23 @@ fn family_size_history(tier: Tier, sink: &mut Sink) {
                         // directly after the pictures of size A (no I picture of size B in between)
                         sink.case(s.opts()[0], &pre, &whole, &|| format!("size history {s:?}: {pname} with A={wa}x{ha}, then type-{pt} picture with B={wb}x{hb}"));
                     }
+                    // the size changes through an all-intra predicted / disposable picture (accepted without a
+                    // reference of its size; a disposable one becomes the last picture but not the reference)
+                    if pname == "I(A)" {
+                        let (gw, gh) = mb_grid(wb, hb);
+                        let types2: &[u8] = if s == Stream::Std { &[1] } else { &[1, 2] };
+                        for &k2 in types2 {
+                            let all_intra = encode_bytes(&Pic { hdr: stream_hdr(s, wb, hb, k2, 7, 5), mbs: (0..gw * gh).map(|i| Mb::intra_flat(50 + (i * 7 % 150) as u8)).collect() });
+                            let mut h2 = pre.clone();
+                            h2.push(a(all_intra));
+                            for &pt in types {
+                                let whole = if pt == 0 { valid_i(s, wb, hb, 6) } else { valid_p(s, wb, hb, pt, 6) };
+                                sink.case(s.opts()[0], &h2, &whole, &|| format!("size history {s:?}: I with A={wa}x{ha}, all-intra type-{k2} picture with B={wb}x{hb}, then type-{pt} picture of size B"));
+                            }
+                            let cut = encode_bytes(&Pic { hdr: stream_hdr(s, wb, hb, 1, 7, 7), mbs: vec![] });
+                            sink.case(s.opts()[0], &h2, &cut, &|| format!("size history {s:?}: I with A={wa}x{ha}, all-intra type-{k2} picture with B={wb}x{hb}, then a P header of size B without macroblocks"));
+                        }
+                    }
                     // header and first macroblock only
                     let (mbw, _) = mb_grid(wb, hb);
                     let _ = mbw;
@@ -1405,7 +1422,7 @@ pub fn run(tier: Tier) -> Report {
         rep.states.store(0, std::sync::atomic::Ordering::Relaxed);
     }
     rep.set_rule(
-        "decode_next_picture under catch_unwind (overflow checks on) in isolated single-threaded worker processes with a shared-memory journal, watchdog and address-space cap: (1) macroblock-token sequences of length 0..capacity+2 with at most d non-default letters (quick: d=2 for pictures of <= 2 macroblocks, d=1 otherwise; thorough: d=2 everywhere and d=3 for pictures of <= 2 macroblocks in two histories) over complete-macroblock alphabets (every MCBPC/CBPY codeword, stuffing, invalid prefixes, DQUANT, extreme/invalid MVDs, block letters: escapes 0/min/max per width, run overflow, INTRADC 0/128/255, invalid TCOEF) x 3 stream kinds x I/P/D x sizes x quantizers 1,31 x decoder histories x option sets x tails; (2) a header alphabet (zero/odd/huge/reserved sizes, all types, marker errors, PLUSPTYPE mode patterns) x bodies x histories, truncated at every byte; (3) every single-byte substitution, deletion and duplication of base pictures; (4) all byte strings of <= 2 (thorough 3) bytes alone and all 2-byte strings after headers; (6) unrestricted-motion-vector accumulations; (9) blocks whose escape runs / event counts accumulate past 2^8, 2^12 and 2^16; (10) size histories: every ordered pair (A, B) of 17 (standard mode: 11) sizes that collide in one derived quantity and differ in another (equal area / other shape, equal luma count / other chroma count, equal chroma planes, equal macroblock grid) as I(A) | I(A),P(A) | I(A),I(A) | I(A),D(A), then optionally I(B), then an I, P or disposable picture of size B, whole or cut after its first macroblock; (8, thorough) every adjacent byte pair over all 65536 values and every pair of positions over a 16-value alphabet on tiny base pictures; (7) every 64x64 differential pair (one- and four-vector) at every macroblock position of small predicted pictures; plus labelled random sampling; inputs declaring more than 2^22 pixels are excluded by an exact header pre-filter; non-trivial = inputs that begin with a start code",
+        "decode_next_picture under catch_unwind (overflow checks on) in isolated single-threaded worker processes with a shared-memory journal, watchdog and address-space cap: (1) macroblock-token sequences of length 0..capacity+2 with at most d non-default letters (quick: d=2 for pictures of <= 2 macroblocks, d=1 otherwise; thorough: d=2 everywhere and d=3 for pictures of <= 2 macroblocks in two histories) over complete-macroblock alphabets (every MCBPC/CBPY codeword, stuffing, invalid prefixes, DQUANT, extreme/invalid MVDs, block letters: escapes 0/min/max per width, run overflow, INTRADC 0/128/255, invalid TCOEF) x 3 stream kinds x I/P/D x sizes x quantizers 1,31 x decoder histories x option sets x tails; (2) a header alphabet (zero/odd/huge/reserved sizes, all types, marker errors, PLUSPTYPE mode patterns) x bodies x histories, truncated at every byte; (3) every single-byte substitution, deletion and duplication of base pictures; (4) all byte strings of <= 2 (thorough 3) bytes alone and all 2-byte strings after headers; (6) unrestricted-motion-vector accumulations; (9) blocks whose escape runs / event counts accumulate past 2^8, 2^12 and 2^16; (10) size histories: every ordered pair (A, B) of 17 (standard mode: 11) sizes that collide in one derived quantity and differ in another (equal area / other shape, equal luma count / other chroma count, equal chroma planes, equal macroblock grid) as I(A) | I(A),P(A) | I(A),I(A) | I(A),D(A), then optionally I(B) - or an all-intra predicted / disposable picture of size B -, then an I, P or disposable picture of size B, whole or cut; (8, thorough) every adjacent byte pair over all 65536 values and every pair of positions over a 16-value alphabet on tiny base pictures; (7) every 64x64 differential pair (one- and four-vector) at every macroblock position of small predicted pictures; plus labelled random sampling; inputs declaring more than 2^22 pixels are excluded by an exact header pre-filter; non-trivial = inputs that begin with a start code",
     );
     rep.sample(json!({"family": "grammar", "case": "Sorenson v1 P 32x16 q=31 after [I 32x32]: [inter mv0, blk0 escape-max, inter mv0] + following start code"}));
     rep.sample(json!({"family": "headers", "case": "Sorenson v0 size 0x16 type 0, body = 1 default macroblock, after [I 16x16, D 16x16]"}));
